@@ -39,7 +39,7 @@ ProjOK(e, o) ==
 
 TBegin == IsEvent("Begin") /\ LET e == Log[l] IN
             /\ obj' = <<>> /\ blob' = <<>>
-            /\ env' = [coord |-> e.pts, R |-> e.R, S |-> e.S, kernel |-> e.kernel, zero |-> e.zero]
+            /\ env' = [coord |-> e.pts, R |-> e.R, S |-> e.S, kernel |-> e.kernel, zero |-> e.zero, wide |-> <<>>]
 TNew == IsEvent("New") /\ LET e == Log[l] IN
             /\ New(e.id, e.k, e.dim) /\ IterOK(e) /\ Named(e, obj'[e.id]) /\ UNCHANGED <<blob, env>>
 TUpdate == IsEvent("Update") /\ LET e == Log[l]  o == obj[e.id]
@@ -93,7 +93,44 @@ TTwin == IsEvent("Twin") /\ LET e == Log[l]  a == obj[e.a]  b == obj[e.b] IN
             /\ Chk("C09:lockstep", a.k = b.k /\ a.dim = b.dim /\ a.n = b.n /\ a.est = b.est /\ a.lev = b.lev)
             /\ UNCHANGED <<obj, blob, env>>
 
-TInit == obj = <<>> /\ l = 1 /\ blob = <<>> /\ env = [coord |-> <<>>, R |-> 0, S |-> 1, kernel |-> "l1", zero |-> 0]
+(***************************************************************************)
+(* Wide counters: n driven past 2^32 by merge doublings (merge adds n).    *)
+(* The ghost bag of inputs no longer fits TLC integers, so these sketches  *)
+(* are tracked by a reduced model env.wide[id] = [k, dim, n, ids]: n exact *)
+(* in limb arithmetic, the retained bound, iterator consistency, retained  *)
+(* points among the offered ids, and the C09 clauses.                      *)
+(***************************************************************************)
+WideOK(e, w) ==
+  /\ IterOK(e)
+  /\ Chk("n-exact", e.n = w.n)
+  /\ Chk("retained-bound", e.retained <= w.k * e.nlev)
+  /\ Chk("retained-are-inputs", \A h \in 1..Len(e.lev) : \A x \in 1..Len(e.lev[h]) : e.lev[h][x] \in w.ids)
+TWNew == IsEvent("WNew") /\ LET e == Log[l] IN
+            /\ env' = [env EXCEPT !.wide = (e.id :> [k |-> e.k, dim |-> e.dim, n |-> <<0, 0>>, ids |-> {}]) @@ @]
+            /\ UNCHANGED <<obj, blob>>
+TWStep == IsEvent("WStep") /\ LET e == Log[l]  w == env.wide[e.id]
+                                  nw == IF e.op = "update" THEN [w EXCEPT !.n = WAdd(@, <<1, 0>>), !.ids = @ \cup {e.p}]
+                                        ELSE [w EXCEPT !.n = WAdd(@, env.wide[e.src].n), !.ids = @ \cup env.wide[e.src].ids] IN
+            /\ WideOK(e, nw)
+            /\ env' = [env EXCEPT !.wide = [@ EXCEPT ![e.id] = nw]]
+            /\ UNCHANGED <<obj, blob>>
+TWSer == IsEvent("WSer") /\ LET e == Log[l] IN
+            /\ WideOK(e, env.wide[e.src])
+            /\ Chk("C09:bytes=stream", e.img = e.simg)
+            /\ blob' = (e.blob :> [w |-> env.wide[e.src], lev |-> Wit(e), est |-> e.est, img |-> e.img, size |-> e.size]) @@ blob
+            /\ UNCHANGED <<obj, env>>
+TWDeser == IsEvent("WDeser") /\ LET e == Log[l]  b == blob[e.blob] IN
+            /\ Chk("C20:n-exact-wide", e.n = b.w.n)                       \* (n exact is C20's clause, also through an image)
+            /\ Chk("C09:config", e.k = b.w.k /\ e.dim = b.w.dim)
+            /\ Chk("C09:levels", Wit(e) = b.lev /\ e.est = b.est)
+            /\ WideOK(e, b.w)
+            /\ Chk("C09:consumed", e.consumed = b.size)
+            /\ Chk("C09:reserialize", e.reimg = b.img)
+            /\ env' = [env EXCEPT !.wide = (e.dst :> b.w) @@ @]
+            /\ UNCHANGED <<obj, blob>>
+
+TInit == obj = <<>> /\ l = 1 /\ blob = <<>> /\ env = [coord |-> <<>>, R |-> 0, S |-> 1, kernel |-> "l1", zero |-> 0, wide |-> <<>>]
 TNext == TBegin \/ TNew \/ TUpdate \/ TUpdateBad \/ TMerge \/ TMergeBad \/ TEst \/ TObs \/ TCopy \/ TSer \/ TDeser \/ TTwin
+         \/ TWNew \/ TWStep \/ TWSer \/ TWDeser
 TSpec == TInit /\ [][TNext]_tvars
 ====
